@@ -42,8 +42,10 @@ NEXUS_STATEMENTS = [
     "[a comment]", "[unterminated comment", "'unterminated quote",
 ]
 
+# the documented ValueErrors of the get() routes for a source that holds no data of the requested kind
 OK_VALUE_ERRORS = ("No trees in data source", "No trees available at requested location",
-                   "No character data in data source", "No character data available at requested location")
+                   "No character data in data source", "No character data available at requested location",
+                   "Data source (at offset")      # "... is of type 'standard', but current CharacterMatrix is of type 'dna'"
 
 MATRIX_TYPES = {"dna": "DnaCharacterMatrix", "protein": "ProteinCharacterMatrix", "standard": "StandardCharacterMatrix"}
 
